@@ -101,6 +101,7 @@ type vpReq struct {
 type vpAppReply struct {
 	Valid bool   `json:"valid"`
 	State string `json:"state"`
+	Run   int64  `json:"run"` // agent_run_id of the connect reply handed over with "connected" (0 otherwise)
 }
 
 type vpStep struct {
@@ -716,6 +717,15 @@ func (r *vpRunner) run(h *vpHistory) (obs vpObs) {
 					AppStateDisconnected: "disconnected", AppStateRestart: "restart",
 					AppStateInvalidLicense: "invalid_license"}[rep.State]
 				step.AppReply = &vpAppReply{Valid: rep.RunIDValid, State: st}
+				if rep.State == AppStateConnected && !rep.RunIDValid {
+					var cr struct {
+						ID string `json:"agent_run_id"`
+					}
+					step.AppReply.Run = -1
+					if json.Unmarshal(rep.ConnectReply, &cr) == nil {
+						step.AppReply.Run = vpRunNum(cr.ID)
+					}
+				}
 			case <-time.After(3 * time.Second):
 				step.Hung = true
 			}
@@ -817,7 +827,7 @@ func (r *vpRunner) run(h *vpHistory) (obs vpObs) {
 		case "exit":
 			done := make(chan struct{})
 			go func() { r.p.CleanExit(); close(done) }()
-			deadline := time.After(5 * time.Second)
+			deadline := time.After(3 * time.Second)
 		loop:
 			for {
 				select {
